@@ -147,8 +147,9 @@ AllocTyped(st, T, owned) ==
        IN Commit(st1, meta, owned, EmbedsTyped(owned), FALSE)
   ELSE LET r == SlowPath(st, Pad(T)) IN
        IF r.ok
-       THEN \* Meta::align_to re-aligns from memory_offset, i.e. over the node header (lib.rs:889)
-            LET m == r.meta meta == [mo |-> m.mo, ms |-> m.ms, po |-> Align(m.mo, T.align), ps |-> T.size] IN
+       THEN \* Meta::align_to aligns the accessible offset, which the slow path put after the node header
+            \* (lib.rs:889; the original code re-aligned from memory_offset, i.e. over the header: see known_findings C02)
+            LET m == r.meta meta == [mo |-> m.mo, ms |-> m.ms, po |-> Align(m.po, T.align), ps |-> T.size] IN
             Commit(r.st, meta, owned, EmbedsTyped(owned), FALSE)
        ELSE Fail(st)
 
@@ -163,8 +164,8 @@ AllocAligned(st, T, n, owned) ==
        IN Commit(st1, meta, owned, EmbedsBytes(owned, meta), FALSE)
   ELSE LET r == SlowPath(st, Pad(T) + n) IN
        IF r.ok
-       THEN LET m == r.meta po2 == Align(m.mo, T.align)
-                meta == [mo |-> m.mo, ms |-> m.ms, po |-> po2, ps |-> m.mo + m.ms - po2] IN
+       THEN LET m == r.meta po2 == Align(m.po, T.align)
+                meta == [mo |-> m.mo, ms |-> m.ms, po |-> po2, ps |-> m.po + m.ps - po2] IN
             Commit(r.st, meta, owned, EmbedsBytes(owned, meta), FALSE)
        ELSE Fail(st)
 
